@@ -300,7 +300,7 @@ class _Exec(sched.Execution):
             CUR[0] = None
 
 
-def init_race(nthreads, bound, granularity, ref_tokens, max_exec=None):
+def init_race(nthreads, bound, granularity, ref_tokens, max_exec=None, roots=None, split=False):
     from sqlparse import lexer
     fn = lexer.__file__
     init_names = None        # every function of lexer.py except the scanning loop and the keyword lookup
@@ -350,12 +350,36 @@ def init_race(nthreads, bound, granularity, ref_tokens, max_exec=None):
             # CPython 3.12 instruments a code object for per-opcode events when f_trace_opcodes is first set on one of
             # its frames, and that first frame does not get them: one throw-away execution instruments every code object
             sched.explore(make, is_point, 0, granularity, None, max_executions=1)
-        st = sched.explore(make, is_point, bound, granularity, on_exec, max_executions=max_exec)
+        if roots is not None:
+            st = sched.explore(make, is_point, bound, granularity, on_exec, max_executions=max_exec, roots=roots)
+        elif split:
+            # run the root here, hand its children (first deviation each) to forked workers
+            st = sched.explore(make, is_point, bound, granularity, on_exec, children_only=True)
+            kids = st.pop('children')
+            st['children'] = []
+
+            def work(chunk):
+                s2, v2 = init_race(nthreads, bound, granularity, ref_tokens, roots=chunk)
+                return s2, v2
+            parts = core.pmap(work, core.chunked(kids, core.NPROC * 3)) if kids else []
+            for s2, v2 in parts:
+                st['executions'] += s2['executions']
+                st['max_points'] = max(st['max_points'], s2['max_points'])
+                st['switch_points_total'] += s2['switch_points_total']
+                st['capped'] = st['capped'] or s2['capped']
+                for k, n in s2['outcomes_raw'].items():
+                    outcomes[k] += n
+                blocked_seen[0] += s2['executions_where_a_thread_blocked_on_the_lock']
+                viols.extend(v2)
+        else:
+            st = sched.explore(make, is_point, bound, granularity, on_exec, max_executions=max_exec)
     finally:
         sched.Execution = sched_Execution
         lexer.Lexer._lock = real_lock
         lexer.Lexer._default_instance = None
     st['outcomes'] = {str(k): v for k, v in outcomes.items()}
+    st['outcomes_raw'] = dict(outcomes)
+    st.pop('children', None)
     st['executions_where_a_thread_blocked_on_the_lock'] = blocked_seen[0]
     return st, viols
 
@@ -420,6 +444,18 @@ def concurrent_calls(pairs, bound, granularity, max_exec=None):
     return stats_all, viols
 
 
+def _cc_parallel(pairs, bound):
+    parts = core.pmap(lambda p: concurrent_calls([p], bound, 'call'), pairs)
+    cc = {'executions': 0, 'max_points': 0, 'pairs': {}}
+    viols = []
+    for c, v in parts:
+        cc['executions'] += c['executions']
+        cc['max_points'] = max(cc['max_points'], c['max_points'])
+        cc['pairs'].update(c['pairs'])
+        viols += v
+    return cc, viols
+
+
 def frame_condition(names):
     """run each body alone and evaluate the global digest at every function entry inside sqlparse"""
     import sqlparse
@@ -460,7 +496,11 @@ def run(tier, seed):
     # ---- histories (first: the parent must not have created the lexer yet, so that the children also explore
     # the state before the process's first call)
     assert lexer.Lexer._default_instance is None
+    import time as _t
+    t0 = _t.time()
+    timing = {}
     hinfo, hv = histories_part(tier, seed, ref)
+    timing['histories'] = round(_t.time() - t0, 1)
     viols += hv
     ref_tokens = [(oracles.tname(tt), v) for tt, v in lexer.tokenize('select foo from bar map limit')]
     # ---- init race
@@ -468,9 +508,11 @@ def run(tier, seed):
     plan = [(2, 2, 'line'), (3, 1, 'line'), (2, 1, 'opcode')] if tier == 'quick' else \
            [(2, 3, 'line'), (3, 2, 'line'), (2, 2, 'opcode'), (3, 1, 'opcode')]
     for nt, bd, gr in plan:
-        st, v = init_race(nt, bd, gr, ref_tokens)
+        st, v = init_race(nt, bd, gr, ref_tokens, split=True)
+        st.pop('outcomes_raw', None)
         race[f'{nt} threads, {gr} points, preemption bound {bd}'] = st
         viols += v
+    timing['init_race'] = round(_t.time() - t0 - timing['histories'], 1)
     # one schedule replayed twice must give identical observations
     st1, v1 = init_race(2, 0, 'line', ref_tokens)
     st2, v2 = init_race(2, 0, 'line', ref_tokens)
@@ -482,16 +524,21 @@ def run(tier, seed):
     if tier == 'quick':
         pairs = [('parse', 'format-reindent'), ('format-aligned', 'format-python'), ('format-spaces', 'format-spaces'),
                  ('split', 'raises')]
-        cc, v = concurrent_calls(pairs, 1, 'call')
+        cc, v = _cc_parallel(pairs, 1)
     else:
         pairs = [(a, b) for i, a in enumerate(names) for b in names[i:]]
-        cc, v = concurrent_calls(pairs, 1, 'call')
+        cc, v = _cc_parallel(pairs, 1)
         cc2, v2b = concurrent_calls([('format-spaces', 'format-spaces'), ('parse', 'format-reindent'),
                                      ('format-python', 'format-python')], 2, 'call', max_exec=60000)
         cc['bound2'] = cc2
         v += v2b
     viols += v
-    fc = frame_condition(names if tier == 'thorough' else names[:4])
+    timing['concurrent_calls'] = round(_t.time() - t0 - sum(timing.values()), 1)
+    fc_names = names if tier == 'thorough' else names[:4]
+    fc = {}
+    for part in core.pmap(lambda n: frame_condition([n]), fc_names):
+        fc.update(part)
+    timing['frame_condition'] = round(_t.time() - t0 - sum(timing.values()), 1)
     for x in viols:
         vc[(x['kind'], x['sig'])] += 1
     total_exec = sum(s['executions'] for s in race.values()) + cc['executions']
@@ -501,7 +548,7 @@ def run(tier, seed):
         'samples': [{'history': ['parse-raises', 'reconfigure-and-reset', 'stream-suspended']},
                     {'schedule': 'thread 0 preempted after get_default_instance:53, thread 1 runs until it blocks on the lock'}],
         'histories': hinfo, 'init_race': race, 'concurrent_calls': cc, 'frame_condition': fc,
-        'schedules_explored': total_exec, 'exhaustive': not any(s['capped'] for s in race.values()),
+        'schedules_explored': total_exec, 'timing_s': timing, 'exhaustive': not any(s['capped'] for s in race.values()),
         'explanation': 'E6: every history of <= d operations from a 15-operation alphabet (each in a forked child of a warm '
                        'parent), plus BFS over the digest-quotient graph of global states to fixpoint; in every state the '
                        'probe suite must return exactly what a fresh interpreter returns. E5: all interleavings of 2-3 real '
